@@ -151,24 +151,7 @@ func checkC15(c *Check) {
 			if ret == nil || len(ret.Results) != 1 {
 				return false
 			}
-			call, ok := ast.Unparen(ret.Results[0]).(*ast.CallExpr)
-			if !ok || methodName(call) != "Apply" {
-				return false
-			}
-			fv := fieldOf(info, callRecv(call))
-			if fv == nil || fv.Name() != "errAction" {
-				return false
-			}
-			hasReason := false
-			ast.Inspect(call, func(n ast.Node) bool {
-				if kv, ok := n.(*ast.KeyValueExpr); ok {
-					if id, ok := kv.Key.(*ast.Ident); ok && id.Name == "Reason" && !isNilIdent(info, kv.Value) {
-						hasReason = true
-					}
-				}
-				return true
-			})
-			return hasReason
+			return c15ErrAction(c.P, r.FI, info, ret.Results[0], 0)
 		}
 		n := 0
 		for _, pt := range r.F.Points() {
@@ -393,16 +376,21 @@ func checkC15(c *Check) {
 			tv, ok := info.Types[ret.Results[0]]
 			return ok && tv.Value != nil && tv.Value.String() == "true"
 		}
-		// the entry variable, the address variable, the domain variable
-		var entObj, addrObj, domObj types.Object
-		ast.Inspect(ra.FI.Decl.Body, func(n ast.Node) bool {
-			if rs, ok := n.(*ast.RangeStmt); ok && rs.Value != nil {
-				if pa := paramObjs(ra.FI)["addrs"]; pa != nil && objOf(info, rs.X) == pa {
-					addrObj = objOf(info, rs.Value)
-				} else if addrObj != nil && posIn(rs, rs.Pos()) {
-					entObj = objOf(info, rs.Value)
-				}
+		// the loops over the addresses and over the entitlement entries (any loop form), the domain variable
+		var addrLoop, entLoop *ElemLoop
+		var domObj types.Object
+		pa := paramObjs(ra.FI)["addrs"]
+		for _, l := range elemLoops(info, ra.FI.Decl.Body, func(e ast.Expr) bool {
+			sl, ok := info.TypeOf(e).Underlying().(*types.Slice)
+			return ok && isStringType(sl.Elem())
+		}) {
+			if pa != nil && objOf(info, l.List) == pa {
+				addrLoop = l
+			} else if addrLoop != nil && posIn(addrLoop.Body, l.Stmt.Pos()) {
+				entLoop = l
 			}
+		}
+		ast.Inspect(ra.FI.Decl.Body, func(n ast.Node) bool {
 			if as, ok := n.(*ast.AssignStmt); ok && len(as.Rhs) == 1 && len(as.Lhs) == 3 {
 				if call, ok := ast.Unparen(as.Rhs[0]).(*ast.CallExpr); ok && isCall(info, call, "~/framework/address.Split") {
 					domObj = objOf(info, as.Lhs[1])
@@ -410,26 +398,48 @@ func checkC15(c *Check) {
 			}
 			return true
 		})
+		isEnt := func(e ast.Expr) bool { return entLoop != nil && entLoop.IsElem(e) }
+		other := func(e ast.Expr) bool {
+			if addrLoop != nil && addrLoop.IsElem(e) {
+				return true
+			}
+			if o := objOf(info, e); o != nil && o == domObj {
+				return true
+			}
+			sv, ok := constString(info, e)
+			return ok && sv == "*"
+		}
 		// the world in which no entry equals the address, its domain or the wildcard
-		eqOK := ra.F.World(func(atom ast.Expr) (bool, bool) {
+		eqAtoms := ra.F.World(func(atom ast.Expr) (bool, bool) {
 			be, ok := ast.Unparen(atom).(*ast.BinaryExpr)
 			if !ok || (be.Op != token.EQL && be.Op != token.NEQ) {
 				return false, false
 			}
-			x, y := objOf(info, be.X), objOf(info, be.Y)
-			isEnt := func(o types.Object) bool { return o != nil && o == entObj }
-			other := func(o types.Object, e ast.Expr) bool {
-				if o != nil && (o == addrObj || o == domObj) {
-					return true
-				}
-				s, ok := constString(info, e)
-				return ok && s == "*"
-			}
-			if (isEnt(x) && other(y, be.Y)) || (isEnt(y) && other(x, be.X)) {
+			if (isEnt(be.X) && other(be.Y)) || (isEnt(be.Y) && other(be.X)) {
 				return be.Op == token.NEQ, true
 			}
 			return false, false
 		})
+		eqOK := func(b *cfgBlock, i int) bool {
+			// `switch entry { case domain, "*", addr: }` and `switch addr { case entry: }`
+			if cond, isCase := ra.F.Cond(b); cond != nil && isCase {
+				if tag := ra.F.CaseTag(b); tag != nil && ((isEnt(tag) && other(cond)) || (isEnt(cond) && other(tag))) {
+					return i == 0
+				}
+				return false
+			}
+			return eqAtoms(b, i)
+		}
+		var entObj, addrObj types.Object
+		if entLoop != nil {
+			entObj = entLoop.Idx
+			if entLoop.Val != nil {
+				entObj = entLoop.Val
+			}
+		}
+		if addrLoop != nil {
+			addrObj = addrLoop.ElemObj()
+		}
 		path, f := ra.F.Reach(Query{From: ra.Entry(), Inclusive: true, Target: accept, AvoidEdge: eqOK})
 		c.Hold("R6", "AuthorizeEmailUse:equality-only", ra.FI.Decl.Pos(), !f && entObj != nil && addrObj != nil, "the entitlement lookup can accept without an equality between an entry and the address / its domain / \"*\" (e.g. a suffix or prefix match admits foreign addresses that merely end with an entitled one): "+ra.F.Describe(path))
 	}
@@ -481,4 +491,49 @@ func c15Refusal(p *Prog, fi *FuncInfo, info *types.Info, e ast.Expr, depth int) 
 		return all && n > 0
 	}
 	return false
+}
+
+
+// c15ErrAction: the expression is the configured error action applied to a result that carries a reason –
+// `X.errAction.Apply(CheckResult{Reason: …})` – or a call of a function of the package every return of which is.
+func c15ErrAction(p *Prog, fi *FuncInfo, info *types.Info, e ast.Expr, depth int) bool {
+	call, ok := ast.Unparen(e).(*ast.CallExpr)
+	if !ok {
+		return false
+	}
+	if methodName(call) == "Apply" {
+		fv := fieldOf(info, callRecv(call))
+		if fv == nil || fv.Name() != "errAction" {
+			return false
+		}
+		hasReason := false
+		ast.Inspect(call, func(n ast.Node) bool {
+			if kv, ok := n.(*ast.KeyValueExpr); ok {
+				if id, ok := kv.Key.(*ast.Ident); ok && id.Name == "Reason" && !isNilIdent(info, kv.Value) {
+					hasReason = true
+				}
+			}
+			return true
+		})
+		return hasReason
+	}
+	fn := callee(info, call)
+	if fn == nil || depth >= 2 || fn.Pkg() != fi.Obj.Pkg() {
+		return false
+	}
+	d := p.DeclOf(fn)
+	if d == nil || d.Decl.Body == nil {
+		return false
+	}
+	all, n := true, 0
+	inspectNoLit(d.Decl.Body, func(y ast.Node) bool {
+		if ret, ok := y.(*ast.ReturnStmt); ok {
+			n++
+			if len(ret.Results) != 1 || !c15ErrAction(p, d, d.Info(), ret.Results[0], depth+1) {
+				all = false
+			}
+		}
+		return true
+	})
+	return all && n > 0
 }
